@@ -430,6 +430,10 @@ def snapshot(root, follow_files_under=None, follow_dirs=()):
 
     def record_file(rel, p, link=False):
         st = os.stat(p)
+        import stat as _stat
+        if not _stat.S_ISREG(st.st_mode):
+            snap[rel] = ("special", _stat.S_IFMT(st.st_mode))       # a FIFO, socket or device: never opened here
+            return
         with open(p, "rb") as f:
             snap[rel] = ("file", f.read(), (st.st_dev, st.st_ino)) + ((True,) if link else ())
 
